@@ -188,6 +188,13 @@ func Prop(t *rapid.T, scheduled bool, recMeta *kit.Recorder) {
 		return mi.State == gen.MetaStateSleep && mi.MailboxQueues.Main == 0 && mi.MailboxQueues.System == 0
 	})
 	time.Sleep(2 * time.Millisecond)
+	if _, err := node.MetaInfo(alias); err != nil {
+		// the alias is released before the terminate callback has been recorded: wait for it
+		kit.WaitUntil(3*time.Second, func() bool {
+			evs := probe.EventsOf("meta")
+			return len(evs) > 0 && evs[len(evs)-1].Kind == "terminate"
+		})
+	}
 
 	if n, d := probe.Overlaps(); n > 0 {
 		t.Fatalf("%d overlapping callback executions: %v\nscript: %v\ntrace: %v", n, d, desc, trace)
